@@ -444,6 +444,18 @@ def _presence(ctx):
                    'a server that came up is reloaded, then its state '
                    'adjusted: %s' % order,
                    construct="'came' handling reload then adjust")
+            # ... every one of them, whatever it still holds: capacity,
+            # partition and traits may have changed while it was away
+            for step in ('reload_server', 'adjust_server_state'):
+                skip = K.find_path(
+                    head, [head], cut_node=lambda n, st=step: any(
+                        K.is_meth(c, st) for c in C.node_calls(n)),
+                    cut_edge=lambda e, h=head: e.src is h and
+                    e.kind == 'done', follow_exc=False)
+                ctx.ob('C08.5', func, head, skip is None,
+                       'every server that came up goes through %s' % step,
+                       path=K.describe(skip) if skip else None,
+                       construct="'came' handling always %s" % step)
     ctx.require(all(seen.values()), 'both presence handlers', rule='C08.5')
     # adjust_server_state
     adj = loader.methods.get('adjust_server_state')
@@ -732,6 +744,19 @@ def check(ctx):
     _ordering(ctx, cell)
     _presence(ctx)
     _bookkeeping(ctx)
+    # shared with C09.4: a server that is replaced while it is down or frozen
+    # gets the placements recorded under it back (decided on what it held
+    # before it was removed) - they are kept, not re-scheduled
+    from . import c09
+    with ctx.shared({'C09': 'C08.5'}):
+        c09._reload(ctx)
+    # shared with C11.1: the blacklist is known before the instances are
+    # loaded (a master that starts with the other order places what is
+    # blacklisted)
+    from . import c11
+    loader = ctx.index.get_class(K.LOADER, 'Loader')
+    c11._load_order(ctx, loader, rule='C08.3', only=[
+        ('load_apps_blacklist', 'load_apps')])
 
 
 _S = 'lib/python/treadmill/scheduler/__init__.py'
